@@ -162,7 +162,16 @@ def ocaml_driver():
 
 
 def run_model(sub, lines, timeout=600):
-    """Feed one case per line to `driver <sub>`; returns the list of result lines."""
+    """Feed one case per line to `driver <sub>`; returns the list of result lines.  Large inputs are
+    split over the cores (the extracted model computes on Coq's unary/binary numbers)."""
+    if len(lines) > 4000:
+        from concurrent.futures import ThreadPoolExecutor
+        n = min(NPROC, (len(lines) + 1999) // 2000)
+        size = (len(lines) + n - 1) // n
+        chunks = [lines[i:i + size] for i in range(0, len(lines), size)]
+        with ThreadPoolExecutor(n) as ex:
+            parts = list(ex.map(lambda c: run_model(sub, c, timeout=max(timeout, 3000)), chunks))
+        return [x for part in parts for x in part]
     drv = ocaml_driver()
     p = subprocess.run([drv, sub], input="\n".join(lines) + "\n", stdout=subprocess.PIPE,
                        stderr=subprocess.PIPE, text=True, timeout=timeout)
